@@ -741,7 +741,7 @@ func rulesC05(w *World, r *Report) {
 	consumers := w.canReach(tg)
 	// the field loop: bound is len(cls.FieldName) — a loop whose header compares a φ with len(field of the ClassDef parameter)
 	var loop *loopInfo
-	var counter *ssa.Phi
+	var counter ssa.Value // indexes the current iteration's definition name: the counter φ, or counter+1 in a range loop
 	for _, lp := range naturalLoops(ro) {
 		for b := range lp.body {
 			iff, ok := b.Instrs[len(b.Instrs)-1].(*ssa.If)
@@ -752,8 +752,8 @@ func rulesC05(w *World, r *Report) {
 			if !ok || bo.Op != token.LSS {
 				continue
 			}
-			if phi, isPhi := bo.X.(*ssa.Phi); isPhi && strings.HasPrefix(f.term(bo.Y).Key(), "len(") {
-				loop, counter = lp, phi
+			if ix := iterationIndex(iff.Cond, lp.header); ix != nil && strings.HasPrefix(f.term(bo.Y).Key(), "len(") {
+				loop, counter = lp, ix
 			}
 		}
 	}
@@ -773,6 +773,7 @@ func rulesC05(w *World, r *Report) {
 			bodyStart = s
 		}
 	}
+	vc := w.newValueCounter(consumers)
 	var dfs func(b *ssa.BasicBlock, n int, desc []string, seen map[*ssa.BasicBlock]bool)
 	dfs = func(b *ssa.BasicBlock, n int, desc []string, seen map[*ssa.BasicBlock]bool) {
 		if b == loop.header {
@@ -791,8 +792,17 @@ func rulesC05(w *World, r *Report) {
 			}
 			for _, cal := range w.calleesOf(c) {
 				if consumers[cal] && w.inPkg(cal) {
-					n++
-					desc = append(desc, fnName(cal)+"@"+w.instrPos(c))
+					// a value reader stands for one value; a helper composed of
+					// value readers for the total of its own paths
+					k := vc.ofCall(c)
+					switch {
+					case len(k) == 1 && n >= 0:
+						n += k[0]
+						desc = append(desc, fmt.Sprintf("%s@%s=%d", fnName(cal), w.instrPos(c), k[0]))
+					default:
+						n = -1
+						desc = append(desc, fmt.Sprintf("%s@%s consumes %v values depending on its path", fnName(cal), w.instrPos(c), k))
+					}
 					break
 				}
 			}
@@ -808,37 +818,70 @@ func rulesC05(w *World, r *Report) {
 		r.add("C05.R1 one wire value per definition field", fmt.Sprintf("(*Decoder).readObject · iteration path #%d", i+1), w.pos(ro.Pos()), p.n == 1,
 			fmt.Sprintf("value-consuming calls on this path: %d %v (want exactly 1: otherwise every later field is read from the wrong bytes)", p.n, p.desc))
 	}
-	r.floor("C05.R1 iteration paths of the field loop", len(results), 2)
+	// floor over the alternative value reads examined (bind the field / skip an
+	// unknown one), wherever they sit: in the loop body or in a helper called from it
+	r.floor("C05.R1 iteration paths of the field loop", len(results), 1)
+	r.floor("C05.R1 alternative value reads of one iteration", len(vc.leaves), 2)
 
 	// R2 binding by name
 	nB := 0
-	for _, cs := range w.callSitesIn(ro) {
-		if cs.callee != "(reflect.Value).Field" {
-			continue
-		}
-		nB++
-		idx := cs.call.Call.Args[1]
-		ok := false
-		fact := "field index is " + idx.String()
-		if ex, isEx := idx.(*ssa.Extract); isEx && ex.Index == 0 {
-			if c, isC := ex.Tuple.(*ssa.Call); isC && c.Call.StaticCallee() != nil && fnName(c.Call.StaticCallee()) == "findField" {
-				// its name argument is FieldName[counter]
-				nameArg := c.Call.Args[0]
-				if ld, isLd := nameArg.(*ssa.UnOp); isLd && ld.Op == token.MUL {
-					if ia, isIA := ld.X.(*ssa.IndexAddr); isIA && ia.Index == ssa.Value(counter) {
-						ok = true
-						fact = "index = findField(definition name of the current iteration, type)"
+	// the object reader and the helpers extracted from it; a value that is a
+	// helper's parameter stands for the arguments at the helper's call sites
+	helpers := w.privateHelpers(ro)
+	var scopeFns []*ssa.Function
+	for fn := range helpers {
+		scopeFns = append(scopeFns, fn)
+	}
+	sort.Slice(scopeFns, func(i, j int) bool { return fnName(scopeFns[i]) < fnName(scopeFns[j]) })
+	for _, hf := range scopeFns {
+		for _, cs := range w.callSitesIn(hf) {
+			if cs.callee != "(reflect.Value).Field" {
+				continue
+			}
+			nB++
+			ok := false
+			fact := "field index is " + cs.call.Call.Args[1].String()
+			idxs, known := throughParams(cs.call.Call.Args[1], hf, helpers, 0)
+			if !known {
+				idxs = nil
+				fact = "field index is a parameter with unknown callers"
+			}
+			allOK := len(idxs) > 0
+			for _, idx := range idxs {
+				one := false
+				if ex, isEx := idx.(*ssa.Extract); isEx && ex.Index == 0 {
+					if c, isC := ex.Tuple.(*ssa.Call); isC && c.Call.StaticCallee() != nil && fnName(c.Call.StaticCallee()) == "findField" {
+						// its name argument is FieldName[index of the current iteration]
+						names, kn := throughParams(c.Call.Args[0], c.Parent(), helpers, 0)
+						one = kn && len(names) > 0
+						for _, nameArg := range names {
+							good := false
+							if ld, isLd := nameArg.(*ssa.UnOp); isLd && ld.Op == token.MUL {
+								if ia, isIA := ld.X.(*ssa.IndexAddr); isIA && ia.Index == counter {
+									good = true
+								}
+							}
+							if !good {
+								one = false
+							}
+						}
+						if one {
+							fact = "index = findField(definition name of the current iteration, type)"
+						} else {
+							fact = "findField is not applied to the wire name of the current iteration"
+						}
 					}
 				}
-				if !ok {
-					fact = "findField is not applied to the wire name of the current iteration"
+				if idx == counter {
+					fact = "the destination field is selected by the loop counter: fields are bound by position, not by name"
+				}
+				if !one {
+					allOK = false
 				}
 			}
+			ok = allOK
+			r.add("C05.R2 fields are bound by looked-up name", fmt.Sprintf("%s · %s", fnName(hf), cs.key()), w.instrPos(cs.call), ok, fact)
 		}
-		if idx == ssa.Value(counter) {
-			fact = "the destination field is selected by the loop counter: fields are bound by position, not by name"
-		}
-		r.add("C05.R2 fields are bound by looked-up name", fmt.Sprintf("(*Decoder).readObject · %s", cs.key()), w.instrPos(cs.call), ok, fact)
 	}
 	r.floor("C05.R2 destination field selections", nB, 1)
 	if ff := w.fn("findField"); ff != nil {
@@ -984,8 +1027,15 @@ func (w *World) ruleIndexGuards(r *Report, rule string, names []string) {
 		want[n] = true
 	}
 	n := 0
+	// the named readers together with the helpers they delegate the table access
+	// to: functions they reach without passing through the value dispatch
+	scope := map[*ssa.Function]map[string]bool{}
+	if names != nil {
+		scope = w.helperScopes(names)
+	}
+	served := map[string]bool{}
 	for _, fn := range w.SrcFuncs() {
-		if names != nil && !want[fnName(fn)] {
+		if names != nil && !want[fnName(fn)] && len(scope[fn]) == 0 {
 			continue
 		}
 		if names == nil {
@@ -1011,6 +1061,9 @@ func (w *World) ruleIndexGuards(r *Report, rule string, names []string) {
 				}
 				n++
 				cnt++
+				for root := range scope[fn] {
+					served[root] = true
+				}
 				env := f.At(b)
 				it := f.term(ia.Index)
 				I, _ := f.Eval(it, env)
@@ -1033,9 +1086,48 @@ func (w *World) ruleIndexGuards(r *Report, rule string, names []string) {
 			}
 		}
 	}
-	min := 2
-	if names == nil {
-		min = 4
+	if names != nil {
+		// floor over the readers served, not over index sites: both index forms
+		// may look the definition up through one helper
+		r.floor(rule+" (readers whose table index use was examined)", len(served), len(names))
+		return
 	}
-	r.floor(rule+" (table index uses)", n, min)
+	r.floor(rule+" (table index uses)", n, 4)
+}
+
+// helperScopes: for each named function, the function itself and the in-package
+// functions it reaches by static calls through functions that cannot reach the
+// value dispatch (ReadData) — the helpers a reader delegates part of its own
+// work to, as opposed to the readers of nested values.  Result: function ->
+// names of the roots it works for.
+func (w *World) helperScopes(names []string) map[*ssa.Function]map[string]bool {
+	out := map[*ssa.Function]map[string]bool{}
+	reachesRD := w.reachesReadData()
+	for _, name := range names {
+		root := w.fn(name)
+		if root == nil {
+			continue
+		}
+		seen := map[*ssa.Function]bool{}
+		var walk func(fn *ssa.Function)
+		walk = func(fn *ssa.Function) {
+			if seen[fn] {
+				return
+			}
+			seen[fn] = true
+			if out[fn] == nil {
+				out[fn] = map[string]bool{}
+			}
+			out[fn][name] = true
+			for _, cs := range w.callSitesIn(fn) {
+				sc := cs.call.Call.StaticCallee()
+				if sc == nil || !w.inPkg(sc) || sc.Blocks == nil || reachesRD == nil || reachesRD[sc] {
+					continue
+				}
+				walk(sc)
+			}
+		}
+		walk(root)
+	}
+	return out
 }
